@@ -1806,6 +1806,17 @@ def _rows(repo, f, it):
             return list(e.elts)
         return _table(repo, f, e) if isinstance(e, (ast.Name, ast.Attribute, ast.BinOp)) else None
     t = table(it)
+    if t is None and isinstance(it, ast.Subscript) and isinstance(it.slice, ast.Slice) and it.slice.step is None and isinstance(it.value, ast.Name) \
+            and all(b is None or (isinstance(b, ast.Constant) and isinstance(b.value, int) and not isinstance(b.value, bool) and b.value >= 0) for b in (it.slice.lower, it.slice.upper)):
+        # NAME[a:b] of a display local (never mutated): the rows in that range
+        d = _display_local(f, it.value.id)
+        if d is not None:
+            full = table(d)
+            if full is not None:
+                lo_ = it.slice.lower.value if it.slice.lower is not None else 0
+                hi_ = it.slice.upper.value if it.slice.upper is not None else len(full)
+                sub_ = full[lo_:hi_]
+                return [[r] for r in sub_]          # (possibly no rows at all: a loop over it does not run)
     if t is None and isinstance(it, ast.Name):
         d = _display_local(f, it.id)
         if d is not None:
@@ -1860,6 +1871,14 @@ def _rows(repo, f, it):
         lo, hi = (0, it.args[0].value) if len(it.args) == 1 else (it.args[0].value, it.args[1].value)
         if 0 < hi - lo <= 8:
             return [[ast.Constant(value=i)] for i in range(lo, hi)]
+    if isinstance(it, ast.Call) and isinstance(it.func, ast.Name) and it.func.id == "enumerate" and 1 <= len(it.args) <= 2 \
+            and (len(it.args) == 2 or len(it.keywords) == 1) and all(k.arg == "start" for k in it.keywords) and len(it.args) + len(it.keywords) == 2:
+        # enumerate(TABLE, start=k) / enumerate(TABLE, k) with a constant integer k
+        st_ = it.args[1] if len(it.args) == 2 else it.keywords[0].value
+        if isinstance(st_, ast.Constant) and isinstance(st_.value, int) and not isinstance(st_.value, bool):
+            t = table(it.args[0])
+            if t is not None:
+                return [[ast.Tuple(elts=[ast.Constant(value=i), r], ctx=ast.Load())] for i, r in enumerate(t, start=st_.value)]
     if isinstance(it, ast.Call) and isinstance(it.func, ast.Name) and not it.keywords:
         if it.func.id == "enumerate" and len(it.args) == 1:
             t = table(it.args[0])
@@ -1980,6 +1999,9 @@ def unroll_loops(repo, f, counter):
                                 out.append(nb)
                         changed[0] = True
                         continue
+                if rows is not None and not rows:
+                    changed[0] = True           # a loop over an empty constant range: no iteration (and no else arm, see above)
+                    continue
                 if rows is not None:
                     binds = [_bind_target(st.target, r[0]) for r in rows]
                     # `continue` is supported as the last statement of an if-arm only when the arm is the whole tail: keep simple
@@ -5040,7 +5062,7 @@ def partial_evaluate(repo, max_rounds=8):
             if fo.changed or c2:
                 ch = True
                 steps.append("fold")
-            if steps:           # only in functions already being specialised: decide `x is None` tests on straight-line code
+            if steps or q in getattr(repo, "inlined", {}):           # only in functions being specialised / with expanded helpers: decide `x is None` tests on straight-line code
                 body, c4 = forward_none_tests(f.node.body)
                 f.node.body = body
                 if c4:
